@@ -30,9 +30,13 @@ unchanged.  `Snap.Hyp3.of_old`: the hypotheses of C01c imply these.
 Relation to C01d: for the layer *without* compaction the two gaps `norir` and `anch` have since been
 discharged (`Cluster.Hyp3w.toHyp3a`, `RaftProofs/ClusterCommit4L.lean`; statements in
 `RaftProps/C01d.lean`).  The bundles of this file (`Snap.Hyp2/3`, `Snap2.Hyp2/3`) are modelled on the
-original `Cluster.Hyp2/3` of C01c and still carry both as fields: the per-call relation of
-`ClusterCommit4A–4I` (`call_pr`) excludes `compact`, pending snapshots and delivered `MsgSnapshot`s, so
-the derivation does not carry over as it stands.
+original `Cluster.Hyp2/3` of C01c and still carry both as fields.  **For part 1 both are discharged in
+`RaftProps/C01g.lean`** (the statements of part 1 under `Snap.Hyp3w` = `Snap.Hyp3` without `anch` and
+`norir`; `Snap.Hyp3w.toHyp3a`, `RaftProofs/ClusterSnap3A–3C.lean`; the lemmas of `ClusterSnapB … S` take
+the weaker bundles `Snap.Hyp2w` / `Snap.Hyp3a`, and the theorems below reach them through
+`Snap.Hyp3.toHyp2w` / `Snap.Hyp3.toHyp3a`).  For part 2 the per-call relation of `ClusterCommit4A–4I`
+(`call_pr`) still excludes pending snapshots and delivered `MsgSnapshot`s, so the derivation does not
+carry over as it stands.
 
 ## Statements
 
@@ -100,8 +104,8 @@ theorem C01e_ghost_log (cfg : JointConfig) (c0 : Nat) (h : List Sys) (H : Snap.H
       (Snap.FL h c0 st).entryAt k = (Snap.FS h c0 st).entryAt k) ∧
     (∀ g F F', Snap.Full (Snap.HistChain h) c0 g F → Snap.Full (Snap.HistChain h) c0 g F' →
       ∀ k, F.entryAt k = F'.entryAt k) := by
-  have I := Snap.node_full H.toHyp2 m s hm v st hv
-  exact ⟨I.log, I.sto, I.pre, fun g F F' h1 h2 => h1.uniq (Snap.hist_agree H.toHyp2) h2⟩
+  have I := Snap.node_full H.toHyp2w m s hm v st hv
+  exact ⟨I.log, I.sto, I.pre, fun g F F' h1 h2 => h1.uniq (Snap.hist_agree H.toHyp2w) h2⟩
 
 /-- **C04 `cluster_leader_commit_rule`** with compaction — the commit rule with **durable
 acknowledgements**: whenever a step `h[n] → h[n+1]` takes the commit index of a node `l` that is leader
@@ -133,7 +137,7 @@ theorem C04_cluster_leader_commit_rule (cfg : JointConfig) (c0 : Nat) (h : List 
           ∀ k, k ≤ stb.raft.raftLog.committed →
             (storeLog stj.raft.raftLog.store).snapIdx < k → stb.raft.raftLog.abs.snapIdx < k →
             (storeLog stj.raft.raftLog.store).entryAt k = stb.raft.raftLog.abs.entryAt k := by
-  have H2 := H.toHyp2
+  have H2 := H.toHyp2w
   obtain ⟨h1, Q, hQ, hq⟩ := H2.toHyp.commit_step n a b ha hb l sta stb hla hlb hs hc
   subst ht
   have hE := ev_of_step ha hb hla hlb hs hc
@@ -152,7 +156,7 @@ theorem C04_cluster_leader_commit_rule (cfg : JointConfig) (c0 : Nat) (h : List 
       · exact d
       · exact absurd d ((Snap.ack_inv H2 n a ha).2 x hx hack hx0).2
     refine ⟨x, hx, hack.1, hack.2, hfrm, hterm', hidx, fun m s stj hm hxs hj => ?_⟩
-    have hh := (Snap.sm_all H hm).rets _ hE j stj hj (.inl ⟨x, hxs, hack, hfrm, hterm', hidx⟩)
+    have hh := (Snap.sm_all H.toHyp3a hm).rets _ hE j stj hj (.inl ⟨x, hxs, hack, hfrm, hterm', hidx⟩)
     have Ij := Snap.node_full H2 m s hm j stj hj
     obtain ⟨e1, he1, ht1⟩ := hh
     obtain ⟨e2, he2, ht2⟩ := hEh
@@ -181,10 +185,10 @@ theorem C03_cluster_leader_completeness (cfg : JointConfig) (c0 : Nat) (h : List
     ∀ k, k ≤ stb.raft.raftLog.committed →
       st'.raft.raftLog.abs.snapIdx < k → stb.raft.raftLog.abs.snapIdx < k →
       st'.raft.raftLog.abs.entryAt k = stb.raft.raftLog.abs.entryAt k := by
-  have H2 := H.toHyp2
+  have H2 := H.toHyp2w
   have hE := ev_of_step ha hb hla hlb hs hc
   obtain ⟨_, hEh, _⟩ := Snap.Ev.leaderLog H2 hE
-  have hh := (Snap.sm_all H hm).lc _ hE l' st' hl' hs' ht
+  have hh := (Snap.sm_all H.toHyp3a hm).lc _ hE l' st' hl' hs' ht
   have I' := Snap.node_full H2 m s hm l' st' hl'
   have Ib := Snap.node_full H2 (n + 1) b hb l stb hlb
   obtain ⟨e1, he1, ht1⟩ := hh
@@ -213,8 +217,8 @@ theorem C04_cluster_follower_commit_sound (cfg : JointConfig) (c0 : Nat) (h : Li
       ∀ k, k ≤ st.raft.raftLog.committed →
         st.raft.raftLog.abs.snapIdx < k → stb.raft.raftLog.abs.snapIdx < k →
         st.raft.raftLog.abs.entryAt k = stb.raft.raftLog.abs.entryAt k := by
-  have H2 := H.toHyp2
-  rcases (Snap.sm_all H hm).nctm v st hv with c | ⟨E, hE, h2, h3, h4, h5⟩
+  have H2 := H.toHyp2w
+  rcases (Snap.sm_all H.toHyp3a hm).nctm v st hv with c | ⟨E, hE, h2, h3, h4, h5⟩
   · exact .inl c
   · right
     obtain ⟨a, b, sta, stb, ha, hb, hla, hlb, hs, ht, e1, e2, hev, _, hc, _⟩ := Snap.Ev.facts H2 hE
@@ -245,9 +249,9 @@ theorem C04_cluster_stored_commit_sound (cfg : JointConfig) (c0 : Nat) (h : List
       ∀ k, k ≤ st.raft.raftLog.store.hardState.commit →
         (storeLog st.raft.raftLog.store).snapIdx < k → stb.raft.raftLog.abs.snapIdx < k →
         (storeLog st.raft.raftLog.store).entryAt k = stb.raft.raftLog.abs.entryAt k) := by
-  have H2 := H.toHyp2
-  refine ⟨(Snap.sm_all H hm).scm v st hv, ?_⟩
-  rcases (Snap.sm_all H hm).ncts v st hv with c | ⟨E, hE, h2, h3, h4, h5⟩
+  have H2 := H.toHyp2w
+  refine ⟨(Snap.sm_all H.toHyp3a hm).scm v st hv, ?_⟩
+  rcases (Snap.sm_all H.toHyp3a hm).ncts v st hv with c | ⟨E, hE, h2, h3, h4, h5⟩
   · exact .inl c
   · right
     obtain ⟨a, b, sta, stb, ha, hb, hla, hlb, hs, ht, e1, e2, hev, _, hc, _⟩ := Snap.Ev.facts H2 hE
@@ -271,7 +275,7 @@ theorem C01_cluster_state_machine_safety_ghost (cfg : JointConfig) (c0 : Nat) (h
     (hv2 : s2.node v2 = some st2)
     (k : Nat) (hk1 : k ≤ st1.raft.raftLog.committed) (hk2 : k ≤ st2.raft.raftLog.committed) :
     (Snap.FL h c0 st1).entryAt k = (Snap.FL h c0 st2).entryAt k :=
-  Snap.sms_ghost H hm1 hv1 hm2 hv2 hk1 hk2
+  Snap.sms_ghost H.toHyp3a hm1 hv1 hm2 hv2 hk1 hk2
 
 /-- **C01 `cluster_state_machine_safety`** with compaction — any two nodes, in any two states of the
 history (the same node before and after a restart or a compaction included), hold the same entry at
@@ -286,10 +290,10 @@ theorem C01_cluster_state_machine_safety (cfg : JointConfig) (c0 : Nat) (h : Lis
     (k : Nat) (hk1 : k ≤ st1.raft.raftLog.committed) (hk2 : k ≤ st2.raft.raftLog.committed)
     (hr1 : st1.raft.raftLog.abs.snapIdx < k) (hr2 : st2.raft.raftLog.abs.snapIdx < k) :
     st1.raft.raftLog.abs.entryAt k = st2.raft.raftLog.abs.entryAt k := by
-  have I1 := Snap.node_full H.toHyp2 m1 s1 hm1 v1 st1 hv1
-  have I2 := Snap.node_full H.toHyp2 m2 s2 hm2 v2 st2 hv2
+  have I1 := Snap.node_full H.toHyp2w m1 s1 hm1 v1 st1 hv1
+  have I2 := Snap.node_full H.toHyp2w m2 s2 hm2 v2 st2 hv2
   rw [← I1.log.ents k hr1, ← I2.log.ents k hr2]
-  exact Snap.sms_ghost H hm1 hv1 hm2 hv2 hk1 hk2
+  exact Snap.sms_ghost H.toHyp3a hm1 hv1 hm2 hv2 hk1 hk2
 
 /-- … in particular for the **applied** entries of two nodes whose applied index is within their
 commit index (`AppliedOk`, which holds outside the restart window — `raft_log.rs:44-46`). -/
@@ -320,10 +324,10 @@ theorem C01_cluster_compacted_prefix_committed (cfg : JointConfig) (c0 : Nat) (h
     ∀ (m2 : Nat) (s2 : Sys) (v2 : Nat) (st2 : NState), h[m2]? = some s2 → s2.node v2 = some st2 →
       ∀ k, k ≤ st1.raft.raftLog.abs.snapIdx → k ≤ st2.raft.raftLog.committed →
         (Snap.FL h c0 st1).entryAt k = (Snap.FL h c0 st2).entryAt k := by
-  have H2 := H.toHyp2
+  have H2 := H.toHyp2w
   have o := Snap.node_ok H2 hm1 hv1
   refine ⟨Snap.c0_le_snap H2 hm1 hv1, o.sidx, o.snap_le, fun m2 s2 v2 st2 hm2 hv2 k hk1 hk2 => ?_⟩
-  exact Snap.sms_ghost H hm1 hv1 hm2 hv2 (Nat.le_trans hk1 o.snap_le) hk2
+  exact Snap.sms_ghost H.toHyp3a hm1 hv1 hm2 hv2 (Nat.le_trans hk1 o.snap_le) hk2
 
 /-! ## Relation to C01c, and non-vacuity -/
 
@@ -356,9 +360,9 @@ theorem C01e_cluster_nonvacuous :
   have hla : Snap.cx_s22.node 1 = some Snap.cx_a13 := rfl
   have hlb : Snap.cx_s23.node 1 = some Snap.cx_a14 := rfl
   have he : Snap.cx_a13.raft.raftLog.abs.entryAt 1 = some c05x_app.entries.head! := by decide
-  have I := Snap.node_full H.toHyp2 22 _ ha 1 _ hla
+  have I := Snap.node_full H.toHyp2w 22 _ ha 1 _ hla
   have hg : (Snap.FL Snap.cx_hist 0 Snap.cx_a14).entryAt 1 = some c05x_app.entries.head! := by
-    rw [Snap.sms_ghost H hb hlb ha hla (k := 1) (by decide) (by decide), I.log.ents 1 (by decide)]
+    rw [Snap.sms_ghost H.toHyp3a hb hlb ha hla (k := 1) (by decide) (by decide), I.log.ents 1 (by decide)]
     exact he
   exact ⟨Snap.cx_hist, H, 22, Snap.cx_s22, Snap.cx_s23, Snap.cx_a13, Snap.cx_a14, _, ha, hb, hla,
     hlb, Snap.c02x_out' _ (by decide), by decide, by decide, by decide, by decide, by decide, he,
@@ -482,8 +486,8 @@ theorem C01e_ghost_log (cfg : JointConfig) (c0 : Nat) (h : List Sys) (H : Snap2.
       (Snap.FL h c0 st).entryAt k = (Snap.FS h c0 st).entryAt k) ∧
     (∀ g F F', Snap.Full (Snap.HistChain h) c0 g F → Snap.Full (Snap.HistChain h) c0 g F' →
       ∀ k, F.entryAt k = F'.entryAt k) := by
-  have I := (Snap2.ghost_inv H.toHyp2 m s hm).node v st hv
-  exact ⟨I.log, I.sto, I.pre, fun g F F' h1 h2 => h1.uniq (Snap2.hist_agree H.toHyp2) h2⟩
+  have I := (Snap2.ghost_inv H.toHyp2w m s hm).node v st hv
+  exact ⟨I.log, I.sto, I.pre, fun g F F' h1 h2 => h1.uniq (Snap2.hist_agree H.toHyp2w) h2⟩
 
 /-- **C04 `cluster_leader_commit_rule`** with compaction and snapshots — the commit rule with **durable
 acknowledgements**: whenever a step `h[n] → h[n+1]` takes the commit index of a node `l` that is leader
@@ -515,7 +519,7 @@ theorem C04_cluster_leader_commit_rule (cfg : JointConfig) (c0 : Nat) (h : List 
           ∀ k, k ≤ stb.raft.raftLog.committed →
             (storeLog stj.raft.raftLog.store).snapIdx < k → stb.raft.raftLog.abs.snapIdx < k →
             (storeLog stj.raft.raftLog.store).entryAt k = stb.raft.raftLog.abs.entryAt k := by
-  have H2 := H.toHyp2
+  have H2 := H.toHyp2w
   obtain ⟨h1, Q, hQ, hq⟩ := H2.toHyp.commit_step n a b ha hb l sta stb hla hlb hs hc
   subst ht
   have hE := ev_of_step ha hb hla hlb hs hc
@@ -535,7 +539,7 @@ theorem C04_cluster_leader_commit_rule (cfg : JointConfig) (c0 : Nat) (h : List 
       · exact d
       · exact absurd d ((Snap2.ack_inv H2 n a ha).2 x hx hack hx0).2
     refine ⟨x, hx, hack.1, hack.2, hfrm, hterm', hidx, fun m s stj hm hxs hj => ?_⟩
-    have hh := (Snap2.sm_all H hm).rets _ hE j stj hj (.inl ⟨x, hxs, hack, hfrm, hterm', hidx⟩)
+    have hh := (Snap2.sm_all H.toHyp3a hm).rets _ hE j stj hj (.inl ⟨x, hxs, hack, hfrm, hterm', hidx⟩)
     have Ij := (Snap2.ghost_inv H2 m s hm).node j stj hj
     obtain ⟨e1, he1, ht1⟩ := hh
     obtain ⟨e2, he2, ht2⟩ := hEh
@@ -564,10 +568,10 @@ theorem C03_cluster_leader_completeness (cfg : JointConfig) (c0 : Nat) (h : List
     ∀ k, k ≤ stb.raft.raftLog.committed →
       st'.raft.raftLog.abs.snapIdx < k → stb.raft.raftLog.abs.snapIdx < k →
       st'.raft.raftLog.abs.entryAt k = stb.raft.raftLog.abs.entryAt k := by
-  have H2 := H.toHyp2
+  have H2 := H.toHyp2w
   have hE := ev_of_step ha hb hla hlb hs hc
   obtain ⟨_, hEh, _⟩ := Snap2.Ev.leaderLog H2 hE
-  have hh := (Snap2.sm_all H hm).lc _ hE l' st' hl' hs' ht
+  have hh := (Snap2.sm_all H.toHyp3a hm).lc _ hE l' st' hl' hs' ht
   have I' := (Snap2.ghost_inv H2 m s hm).node l' st' hl'
   have Ib := (Snap2.ghost_inv H2 (n + 1) b hb).node l stb hlb
   obtain ⟨e1, he1, ht1⟩ := hh
@@ -596,8 +600,8 @@ theorem C04_cluster_follower_commit_sound (cfg : JointConfig) (c0 : Nat) (h : Li
       ∀ k, k ≤ st.raft.raftLog.committed →
         st.raft.raftLog.abs.snapIdx < k → stb.raft.raftLog.abs.snapIdx < k →
         st.raft.raftLog.abs.entryAt k = stb.raft.raftLog.abs.entryAt k := by
-  have H2 := H.toHyp2
-  rcases (Snap2.sm_all H hm).nctm v st hv with c | ⟨E, hE, h2, h3, h4, h5⟩
+  have H2 := H.toHyp2w
+  rcases (Snap2.sm_all H.toHyp3a hm).nctm v st hv with c | ⟨E, hE, h2, h3, h4, h5⟩
   · exact .inl c
   · right
     obtain ⟨a, b, sta, stb, ha, hb, hla, hlb, hs, ht, e1, e2, hev, _, hc, _⟩ := Snap2.Ev.facts H2 hE
@@ -628,9 +632,9 @@ theorem C04_cluster_stored_commit_sound (cfg : JointConfig) (c0 : Nat) (h : List
       ∀ k, k ≤ st.raft.raftLog.store.hardState.commit →
         (storeLog st.raft.raftLog.store).snapIdx < k → stb.raft.raftLog.abs.snapIdx < k →
         (storeLog st.raft.raftLog.store).entryAt k = stb.raft.raftLog.abs.entryAt k) := by
-  have H2 := H.toHyp2
-  refine ⟨(Snap2.sm_all H hm).scm v st hv, ?_⟩
-  rcases (Snap2.sm_all H hm).ncts v st hv with c | ⟨E, hE, h2, h3, h4, h5⟩
+  have H2 := H.toHyp2w
+  refine ⟨(Snap2.sm_all H.toHyp3a hm).scm v st hv, ?_⟩
+  rcases (Snap2.sm_all H.toHyp3a hm).ncts v st hv with c | ⟨E, hE, h2, h3, h4, h5⟩
   · exact .inl c
   · right
     obtain ⟨a, b, sta, stb, ha, hb, hla, hlb, hs, ht, e1, e2, hev, _, hc, _⟩ := Snap2.Ev.facts H2 hE
@@ -654,7 +658,7 @@ theorem C01_cluster_state_machine_safety_ghost (cfg : JointConfig) (c0 : Nat) (h
     (hv2 : s2.node v2 = some st2)
     (k : Nat) (hk1 : k ≤ st1.raft.raftLog.committed) (hk2 : k ≤ st2.raft.raftLog.committed) :
     (Snap.FL h c0 st1).entryAt k = (Snap.FL h c0 st2).entryAt k :=
-  Snap2.sms_ghost H hm1 hv1 hm2 hv2 hk1 hk2
+  Snap2.sms_ghost H.toHyp3a hm1 hv1 hm2 hv2 hk1 hk2
 
 /-- **C01 `cluster_state_machine_safety`** with compaction and snapshots — any two nodes, in any two
 states of the history (the same node before and after a restart or a compaction included), hold the same entry at
@@ -669,10 +673,10 @@ theorem C01_cluster_state_machine_safety (cfg : JointConfig) (c0 : Nat) (h : Lis
     (k : Nat) (hk1 : k ≤ st1.raft.raftLog.committed) (hk2 : k ≤ st2.raft.raftLog.committed)
     (hr1 : st1.raft.raftLog.abs.snapIdx < k) (hr2 : st2.raft.raftLog.abs.snapIdx < k) :
     st1.raft.raftLog.abs.entryAt k = st2.raft.raftLog.abs.entryAt k := by
-  have I1 := (Snap2.ghost_inv H.toHyp2 m1 s1 hm1).node v1 st1 hv1
-  have I2 := (Snap2.ghost_inv H.toHyp2 m2 s2 hm2).node v2 st2 hv2
+  have I1 := (Snap2.ghost_inv H.toHyp2w m1 s1 hm1).node v1 st1 hv1
+  have I2 := (Snap2.ghost_inv H.toHyp2w m2 s2 hm2).node v2 st2 hv2
   rw [← I1.log.ents k hr1, ← I2.log.ents k hr2]
-  exact Snap2.sms_ghost H hm1 hv1 hm2 hv2 hk1 hk2
+  exact Snap2.sms_ghost H.toHyp3a hm1 hv1 hm2 hv2 hk1 hk2
 
 /-- … in particular for the **applied** entries of two nodes whose applied index is within their
 commit index (`AppliedOk`, which holds outside the restart window — `raft_log.rs:44-46`). -/
@@ -705,10 +709,10 @@ theorem C01_cluster_compacted_prefix_committed (cfg : JointConfig) (c0 : Nat) (h
     ∀ (m2 : Nat) (s2 : Sys) (v2 : Nat) (st2 : NState), h[m2]? = some s2 → s2.node v2 = some st2 →
       ∀ k, k ≤ st1.raft.raftLog.abs.snapIdx → k ≤ st2.raft.raftLog.committed →
         (Snap.FL h c0 st1).entryAt k = (Snap.FL h c0 st2).entryAt k := by
-  have H2 := H.toHyp2
+  have H2 := H.toHyp2w
   have o := Snap2.node_ok H2 hm1 hv1
   refine ⟨Snap2.c0_le_snap H2 hm1 hv1, o.sidx, o.snap_le, fun m2 s2 v2 st2 hm2 hv2 k hk1 hk2 => ?_⟩
-  exact Snap2.sms_ghost H hm1 hv1 hm2 hv2 (Nat.le_trans hk1 o.snap_le) hk2
+  exact Snap2.sms_ghost H.toHyp3a hm1 hv1 hm2 hv2 (Nat.le_trans hk1 o.snap_le) hk2
 
 /-- **a released snapshot is a committed prefix**: every `MsgSnapshot` `x` in the transport of a state
 `h[m]` names an index `i > c0` and a term `t` such that there is an earlier step `h[n] → h[n+1]`
@@ -726,8 +730,8 @@ theorem C01_cluster_snapshot_committed_prefix (cfg : JointConfig) (c0 : Nat) (h 
       Has (Snap.FL h c0 stb) x.snapshot.metadata.index x.snapshot.metadata.term ∧
       (stb.raft.raftLog.abs.snapIdx < x.snapshot.metadata.index →
         Has stb.raft.raftLog.abs x.snapshot.metadata.index x.snapshot.metadata.term) := by
-  have H2 := H.toHyp2
-  obtain ⟨hi, E, hE, h2, h3, h4, hh⟩ := Snap2.snap_msg_committed H hm hx hty
+  have H2 := H.toHyp2w
+  obtain ⟨hi, E, hE, h2, h3, h4, hh⟩ := Snap2.snap_msg_committed H.toHyp3a hm hx hty
   obtain ⟨a, b, sta, stb, ha, hb, hla, hlb, hs, ht, e1, e2, hev, _, hc, _⟩ := Snap2.Ev.facts H2 hE
   rw [hev] at hh
   exact ⟨hi, E.nE, a, b, E.l, sta, stb, h2, ha, hb, hla, hlb, hs, by rw [← e1]; exact hc,
@@ -753,9 +757,9 @@ theorem C01_cluster_snapshot_point_agreement (cfg : JointConfig) (c0 : Nat) (h :
         Has st2.raft.raftLog.abs st1.raft.raftLog.abs.snapIdx t) ∧
       (st2.raft.raftLog.abs.snapIdx = st1.raft.raftLog.abs.snapIdx →
         ∀ t', st2.raft.raftLog.abs.snapTerm = some t' → t' = t) := by
-  have H2 := H.toHyp2
+  have H2 := H.toHyp2w
   refine ⟨(Snap2.node_ok H2 hm1 hv1).snap_le, fun m2 s2 v2 st2 hm2 hv2 hk => ?_⟩
-  have hh := Snap2.snap_point_agree H hm1 hv1 ht hi hm2 hv2 hk
+  have hh := Snap2.snap_point_agree H.toHyp3a hm1 hv1 ht hi hm2 hv2 hk
   obtain ⟨r1, r2⟩ := Snap2.has_real H2 hm2 hv2 hh
   exact ⟨hh, r1, fun heq => r2 heq hi⟩
 
@@ -769,8 +773,8 @@ theorem C01_cluster_pending_snapshot (cfg : JointConfig) (c0 : Nat) (h : List Sy
     st.raft.raftLog.unstable.entries = [] ∧ st.raft.raftLog.committed = sn.metadata.index ∧
     c0 < sn.metadata.index ∧ st.raft.raftLog.persisted ≤ sn.metadata.index ∧
     st.raft.raftLog.store.hardState.commit ≤ st.raft.raftLog.committed :=
-  have hk := Snap2.pend_ok H m s hm v st sn hv hp
-  ⟨hk.1, hk.2.1, hk.2.2.1, hk.2.2.2, (Snap2.sm_all H hm).scm v st hv⟩
+  have hk := Snap2.pend_ok H.toHyp3a m s hm v st sn hv hp
+  ⟨hk.1, hk.2.1, hk.2.2.1, hk.2.2.2, (Snap2.sm_all H.toHyp3a hm).scm v st hv⟩
 
 /-- the hypotheses of C01c (no compaction, no snapshots) imply the hypotheses of this part for the
 histories in which no node queues a `MsgSnapshot` and `request_snapshot` is not used.  (The hypotheses
